@@ -145,7 +145,8 @@ CHECKS = {
              "layout and expected spectrum; real arnoldi / arnoldi_eigs / Arnoldi() are checked for A Q_m = Q H, upper "
              "Hessenberg H with non-negative sub-diagonal, m > n equal to the n-step run, no spurious eigenvalues, on "
              "the catalog and seeded random families to n = 200; recorded loops are trace-validated by TLC.",
-        design="5/C15", technique="TLC exact Krylov oracle + control-skeleton model checking + trace validation of real loops"),
+        design="5/C15", technique="TLC exact Krylov oracle + control-skeleton model checking (unbounded: Apalache inductive "
+                                   "invariant) + trace validation of real loops"),
     "C16": dict(
         text="TLC validates a catalog of exactly factored matrices A = U Sigma V^H (rational unitary factors, distinct "
              "integer singular values; tall/wide/square, real/complex) and exports the exact best rank-k approximation "
